@@ -1,567 +1,13 @@
-import BigtoolsModel.Generated.Atoms
-import BigtoolsModel.Tiler2
-import BigtoolsModel.Sweep
-import BigtoolsModel.FView
-import BigtoolsModel.IndexerFix
-import BigtoolsModel.Chunker
-import BigtoolsModel.SummaryFold
-import BigtoolsModel.BedSummary
-import BigtoolsModel.Stats2
-import BigtoolsModel.ZoomLevels
-import BigtoolsModel.Generated.Consts
-/-! The arithmetic and the branch conditions of the two zoom tilers (`process_val_zoom` in bigwigwrite.rs and
-    bigbedwrite.rs), of the two coverage sweeps (the summary sweep in `process_val`, the zoom sweep in `process_val_zoom`),
-    of the section cut and of the variable-step / fixed-step decoders are REGENERATED from the Rust source on every run
-    (`Generated/Atoms.lean`, tools/rs2lean.py). Here the model's loop bodies are re-assembled FROM THOSE EXPRESSIONS
-    (`iterGen`, `bumpGen`, `tailGen`, `flushGen`, …) and proved equal to the model functions the property theorems are
-    about. A change of one of these expressions in the source that is not an equivalent rewrite breaks the theorem here
-    (and `Cex/AtomsCex.lean` then searches for arguments on which source and model differ). -/
-
-set_option linter.unusedSimpArgs false
-set_option linter.unusedVariables false
-
--- normalises Boolean tests to propositions
-macro "atoms_norm" : tactic => `(tactic|
-  (simp only [Bool.and_eq_true, Bool.or_eq_true, Bool.not_eq_true', decide_eq_true_eq, decide_eq_false_iff_not,
-      Bool.if_false_left, Bool.if_false_right, Bool.if_true_left, Bool.if_true_right, Bool.false_eq_true, ge_iff_le, gt_iff_lt,
-      Bool.not_eq_eq_eq_not, Bool.not_true, Bool.not_false, beq_iff_eq, bne_iff_ne, ne_eq] at *))
-
-namespace Tiler2
-
-/-- one pass through the body of the bigWig tiler's `loop`, assembled from the source's expressions -/
-def iterGen (size : Nat) (x : Val) (a : Nat) (st : TSt) : Nat × TSt :=
-  let r := st.live.getD (newRec a x.v)
-  let nextEnd := Gen.wz_next_end r.start size
-  let addEnd := Gen.wz_add_end nextEnd x.e
-  let r' : Rec := if Gen.wz_update addEnd a then
-      { r with stop := addEnd, bases := r.bases + Gen.wz_added addEnd a,
-               sum := r.sum + ((Gen.wz_added addEnd a : Nat) : Int) * x.v, mn := min r.mn x.v, mx := max r.mx x.v }
-    else r
-  let st' : TSt := if Gen.wz_close addEnd nextEnd then { live := none, out := st.out ++ [r'] }
-                   else { live := some r', out := st.out }
-  (Gen.wz_next_start addEnd x.s, st')
-
-/-- the same for the bigBed tiler (the piece `[x.s, x.e)` of coverage depth `x.v` the sweep hands over) -/
-def iterGenBed (size : Nat) (x : Val) (a : Nat) (st : TSt) : Nat × TSt :=
-  let r := st.live.getD (newRec a x.v)
-  let nextEnd := Gen.bz_next_end r.start size
-  let addEnd := Gen.bz_add_end nextEnd x.e
-  let r' : Rec := if Gen.bz_update addEnd a then
-      { r with stop := addEnd, bases := r.bases + Gen.bz_added addEnd a,
-               sum := r.sum + ((Gen.bz_added addEnd a : Nat) : Int) * x.v, mn := min r.mn x.v, mx := max r.mx x.v }
-    else r
-  let st' : TSt := if Gen.bz_close addEnd nextEnd then { live := none, out := st.out ++ [r'] }
-                   else { live := some r', out := st.out }
-  (Gen.bz_next_start addEnd x.s, st')
-
-theorem rec_ext {a b : Rec} (h1 : a.start = b.start) (h2 : a.stop = b.stop) (h3 : a.bases = b.bases) (h4 : a.sum = b.sum)
-    (h5 : a.mn = b.mn) (h6 : a.mx = b.mx) : a = b := by
-  cases a; cases b; simp_all
-
-/-- what the proofs below need of the seven expressions, stated once: each is the model's expression -/
-structure TilerAtoms (done : Nat → Nat → Bool) (nextEnd : Nat → Nat → Nat) (addEnd : Nat → Nat → Nat)
-    (update : Nat → Nat → Bool) (added : Nat → Nat → Nat) (close : Nat → Nat → Bool) (nextStart : Nat → Nat → Nat) : Prop where
-  done_eq : ∀ a e, done a e = decide (a ≥ e)
-  nextEnd_eq : ∀ s z, nextEnd s z = s + z
-  addEnd_eq : ∀ n e, addEnd n e = min n e
-  update_eq : ∀ ae a, update ae a = decide (ae > a)
-  added_eq : ∀ ae a, update ae a = true → added ae a = ae - a
-  close_eq : ∀ ae n, close ae n = decide (ae = n)
-  nextStart_eq : ∀ ae s, nextStart ae s = max ae s
-
-theorem gen_wig_atoms : TilerAtoms Gen.wz_done Gen.wz_next_end Gen.wz_add_end Gen.wz_update Gen.wz_added Gen.wz_close
-    Gen.wz_next_start := by
-  constructor <;> intros <;>
-    delta Gen.wz_done Gen.wz_next_end Gen.wz_add_end Gen.wz_update Gen.wz_added Gen.wz_close Gen.wz_next_start at * <;>
-    first
-    | rfl
-    | grind
-    | (atoms_norm; omega)
-    | (rw [Bool.eq_iff_iff]; atoms_norm; omega)
-
-theorem gen_bed_atoms : TilerAtoms Gen.bz_done Gen.bz_next_end Gen.bz_add_end Gen.bz_update Gen.bz_added Gen.bz_close
-    Gen.bz_next_start := by
-  constructor <;> intros <;>
-    delta Gen.bz_done Gen.bz_next_end Gen.bz_add_end Gen.bz_update Gen.bz_added Gen.bz_close Gen.bz_next_start at * <;>
-    first
-    | rfl
-    | grind
-    | (atoms_norm; omega)
-    | (rw [Bool.eq_iff_iff]; atoms_norm; omega)
-
-/-- **bigWig tiler.** The loop body assembled from the source's expressions is the model's `iter` (repaired variant),
-    for every resolution, value, position and tiler state. -/
-theorem gen_wig_tiler_iter (size : Nat) (x : Val) (a : Nat) (st : TSt) :
-    iterGen size x a st = iter repaired size x a st := by
-  obtain ⟨_, h2, h3, h4, h5, h6, h7⟩ := gen_wig_atoms
-  unfold iterGen iter
-  simp only [h2, h3, h4, h6, h7, repaired, if_true]
-  by_cases hu : min ((st.live.getD (newRec a x.v)).start + size) x.e > a
-  · have := h5 _ _ ((h4 _ _).trans (decide_eq_true hu))
-    simp only [this, hu, decide_true, if_true, decide_eq_true_eq]
-  · simp only [hu, decide_false, Bool.false_eq_true, if_false, decide_eq_true_eq]
-
-/-- **bigBed tiler.** The same for the loop body in bigbedwrite.rs. -/
-theorem gen_bed_tiler_iter (size : Nat) (x : Val) (a : Nat) (st : TSt) :
-    iterGenBed size x a st = iter repaired size x a st := by
-  obtain ⟨_, h2, h3, h4, h5, h6, h7⟩ := gen_bed_atoms
-  unfold iterGenBed iter
-  simp only [h2, h3, h4, h6, h7, repaired, if_true]
-  by_cases hu : min ((st.live.getD (newRec a x.v)).start + size) x.e > a
-  · have := h5 _ _ ((h4 _ _).trans (decide_eq_true hu))
-    simp only [this, hu, decide_true, if_true, decide_eq_true_eq]
-  · simp only [hu, decide_false, Bool.false_eq_true, if_false, decide_eq_true_eq]
-
-/-- the loops' exit tests are the model's `a ≥ x.e` -/
-theorem gen_tiler_done (a e : Nat) : Gen.wz_done a e = decide (a ≥ e) ∧ Gen.bz_done a e = decide (a ≥ e) :=
-  ⟨gen_wig_atoms.done_eq a e, gen_bed_atoms.done_eq a e⟩
-
-/-- when a section of zoom records is handed over: bigWig — all of this value is consumed, nothing is live, it is the
-    last value and there are records, or the section is full; bigBed — the section is full (the end-of-input hand-over
-    of the bigBed path is structural: `if !records.is_empty()` inside the `next_val.is_none()` branch) -/
-theorem gen_zoom_section_flush (a e : Nat) (liveNone isLast recsEmpty : Bool) (n ips : Nat) :
-    Gen.wz_flush a e liveNone isLast recsEmpty n ips = ((decide (a ≥ e) && liveNone && isLast && !recsEmpty) || decide (n = ips))
-    ∧ Gen.bz_full n ips = decide (n = ips) := by
-  delta Gen.wz_flush Gen.bz_full
-  constructor <;> first | rfl | grind | (rw [Bool.eq_iff_iff]; atoms_norm; omega)
-
-end Tiler2
-
-namespace Sweep
-
-/-- `bump` assembled from the source's split test (sel = false: summary sweep, true: zoom sweep) -/
-def bumpGen (sel : Bool) (itemEnd : Nat) : List Seg → List Seg
-  | [] => []
-  | o :: rest =>
-    if (if sel then Gen.bzs_split itemEnd o.e else Gen.bs_split itemEnd o.e) then
-      { o with e := itemEnd, d := o.d + 1 } :: { s := itemEnd, e := o.e, d := o.d } :: rest
-    else
-      { o with d := o.d + 1 } :: bumpGen sel itemEnd rest
-
-/-- the tail rule assembled from the source's test -/
-def tailGen (sel : Bool) (itemStart itemEnd : Nat) (l : List Seg) : List Seg :=
-  match l.getLast? with
-  | some o => if (if sel then Gen.bzs_tail o.e itemEnd else Gen.bs_tail o.e itemEnd) then l ++ [⟨o.e, itemEnd, 1⟩] else l
-  | none => l ++ [⟨itemStart, itemEnd, 1⟩]
-
-/-- the flush loop assembled from the source's two tests -/
-def flushGen (sel : Bool) (nextStart : Nat) : Nat → List Seg → List Seg × List Seg
-  | 0, l => ([], l)
-  | fuel + 1, l =>
-    match l with
-    | [] => ([], [])
-    | f :: rest =>
-      if (if sel then Gen.bzs_more f.s nextStart else Gen.bs_more f.s nextStart) then
-        if (if sel then Gen.bzs_whole f.e nextStart else Gen.bs_whole f.e nextStart) then
-          let (em, rem) := flushGen sel nextStart fuel rest
-          (f :: em, rem)
-        else
-          ([{ f with e := nextStart }], { f with s := nextStart } :: rest)
-      else ([], l)
-
-theorem gen_sweep_atoms (a b : Nat) :
-    Gen.bs_split a b = decide (a < b) ∧ Gen.bzs_split a b = decide (a < b) ∧
-    Gen.bs_tail a b = decide (a < b) ∧ Gen.bzs_tail a b = decide (a < b) ∧
-    Gen.bs_more a b = decide (a < b) ∧ Gen.bzs_more a b = decide (a < b) ∧
-    Gen.bs_whole a b = decide (a ≤ b) ∧ Gen.bzs_whole a b = decide (a ≤ b) := by
-  delta Gen.bs_split Gen.bzs_split Gen.bs_tail Gen.bzs_tail Gen.bs_more Gen.bzs_more Gen.bs_whole Gen.bzs_whole
-  refine ⟨?_, ?_, ?_, ?_, ?_, ?_, ?_, ?_⟩ <;>
-    first | rfl | grind | (rw [Bool.eq_iff_iff]; atoms_norm; omega)
-
-/-- **Both sweeps' increment-and-split step** is the model's `bump`. -/
-theorem gen_bump (sel : Bool) (itemEnd : Nat) (l : List Seg) : bumpGen sel itemEnd l = bump itemEnd l := by
-  induction l with
-  | nil => rfl
-  | cons o rest ih =>
-    obtain ⟨h1, h2, _⟩ := gen_sweep_atoms itemEnd o.e
-    cases sel <;> simp [bumpGen, bump, h1, h2, ih]
-
-/-- **Both sweeps' tail rule** is the model's `tailZoom` (after the repair of D3 the summary sweep uses the zoom sweep's rule). -/
-theorem gen_tail (sel : Bool) (s e : Nat) (l : List Seg) : tailGen sel s e l = tailZoom s e l := by
-  unfold tailGen tailZoom
-  cases hl : l.getLast? with
-  | none => rfl
-  | some o =>
-    obtain ⟨_, _, h3, h4, _⟩ := gen_sweep_atoms o.e e
-    cases sel <;> simp [h3, h4]
-
-/-- **Both sweeps' flush loop** is the model's `flush`. -/
-theorem gen_flush (sel : Bool) (nextStart : Nat) : ∀ (fuel : Nat) (l : List Seg), flushGen sel nextStart fuel l = flush nextStart fuel l := by
-  intro fuel
-  induction fuel with
-  | zero => intro l; rfl
-  | succ n ih =>
-    intro l
-    cases l with
-    | nil => rfl
-    | cons f rest =>
-      obtain ⟨_, _, _, _, h5, h6, _, _⟩ := gen_sweep_atoms f.s nextStart
-      obtain ⟨_, _, _, _, _, _, h7, h8⟩ := gen_sweep_atoms f.e nextStart
-      cases sel <;> simp [flushGen, flush, h5, h6, h7, h8, ih]
-
-/-- the summary sweep's bookkeeping of a flushed piece: the length of a partly flushed piece, and the test that keeps
-    zero-length pieces out of the statistics (D16) -/
-theorem gen_summary_piece (nextStart s len : Nat) :
-    Gen.bs_part_len nextStart s = nextStart - s ∧ Gen.bs_skip len = decide (len = 0) := by
-  delta Gen.bs_part_len Gen.bs_skip
-  constructor <;> first | rfl | grind | (rw [Bool.eq_iff_iff]; atoms_norm; omega)
-
-end Sweep
-
-namespace SectionCut
-
-/-- **Section cut** of both writers: a section is handed over after the last item of the chromosome or when it holds
-    `min items_per_slot 65535` items (`≥`, so a section never exceeds that: the section header's item count is 16 bits
-    wide — D22: as found the cut was at `items_per_slot` alone and a larger section lost its items beyond `count mod 65536`). -/
-theorem gen_cut (isLast : Bool) (n ips : Nat) :
-    Gen.wig_cut isLast n ips = (isLast || decide (n ≥ min ips 65535)) ∧
-    Gen.bed_cut isLast n ips = (isLast || decide (n ≥ min ips 65535)) := by
-  delta Gen.wig_cut Gen.bed_cut
-  constructor <;> first | rfl | grind | (rw [Bool.eq_iff_iff]; atoms_norm; omega)
-
-/-- consequently: the writers hand a section over no later than at 65535 items, whatever `items_per_slot` says
-    (items are pushed one at a time and the test runs after every push) -/
-theorem gen_cut_fits_u16 (isLast : Bool) (n ips : Nat) (h : n ≥ 65535) :
-    Gen.wig_cut isLast n ips = true ∧ Gen.bed_cut isLast n ips = true := by
-  obtain ⟨h1, h2⟩ := gen_cut isLast n ips
-  rw [h1, h2]
-  have : decide (n ≥ min ips 65535) = true := decide_eq_true (by omega)
-  simp [this]
-
-/-- the length a bigWig value contributes to the summary -/
-theorem gen_wig_len (e s : Nat) : Gen.wig_len e s = e - s := by
-  delta Gen.wig_len
-  first | rfl | grind | omega
-
-end SectionCut
-
-namespace StepSections
-
-/-- start of the `i`-th item of a fixed-step section, computed as the source does: `curr_start` begins at the section's
-    start and advances by the step after every item -/
-def fixedStart (start step span : Nat) : Nat → Nat
-  | 0 => Gen.fixed_first start
-  | i + 1 => fixedStart start step span i + Gen.fixed_advance step span
-
-/-- **Fixed-step and variable-step sections**: item `i` of a fixed-step section is `[start + i·step, start + i·step + span)`,
-    an item of a variable-step section is `[s, s + span)` — the expansions the decode theorems (`BBI.decode2`, `BBI.decode3`)
-    are stated with. -/
-theorem gen_step_items (start step span i s : Nat) :
-    fixedStart start step span i = start + i * step ∧ Gen.fixed_end (fixedStart start step span i) span step = start + i * step + span ∧
-    Gen.var_end s span step = s + span := by
-  have h : ∀ i, fixedStart start step span i = start + i * step := by
-    intro i
-    induction i with
-    | zero => simp only [fixedStart]; delta Gen.fixed_first; first | rfl | grind | omega
-    | succ n ih =>
-      simp only [fixedStart, ih]; delta Gen.fixed_advance
-      first | grind | (rw [Nat.add_mul]; omega)
-  refine ⟨h i, ?_, ?_⟩
-  · rw [h]; delta Gen.fixed_end; first | rfl | grind | omega
-  · delta Gen.var_end; first | rfl | grind | omega
-
-end StepSections
-
-namespace FView
-
-/-- one `read` / `seek` of the view, assembled from the expressions of `file_view.rs` regenerated from the source
-    (the assertion `start ≤ new_pos ≤ end` of the `End` arm included) -/
-def stepViewGen (file : List Nat) (v : View) : Op → View × Out
-  | .read n =>
-    let k := Gen.fv_read_len n v.hi v.cur
-    ({ v with cur := v.cur + k }, .bytes ((file.drop v.cur).take k))
-  | .seek (.start k) =>
-    let p := Gen.fv_start_target v.lo v.hi k
-    ({ v with cur := p }, .pos (Gen.fv_rel p v.lo))
-  | .seek (.fromEnd d) =>
-    let p' : Nat := (Gen.fv_end_clamp (Gen.fv_end_pos v.hi (Gen.fv_end_offset d)) v.lo v.hi).toNat
-    if v.lo ≤ p' ∧ p' ≤ v.hi then ({ v with cur := p' }, .pos (Gen.fv_rel p' v.lo)) else (v, .panic)
-  | .seek (.current d) =>
-    let p : Nat := (Gen.fv_cur_clamp (Gen.fv_cur_pos v.cur d) v.lo v.hi).toNat
-    ({ v with cur := p }, .pos (Gen.fv_rel p v.lo))
-
-theorem gen_fv_atoms :
-    (∀ n hi cur, Gen.fv_read_len n hi cur = min n (hi - cur)) ∧
-    (∀ lo hi k, Gen.fv_start_target lo hi k = min hi (lo + k)) ∧
-    (∀ p lo, Gen.fv_rel p lo = p - lo) ∧
-    (∀ d, Gen.fv_end_offset d = min d 0) ∧
-    (∀ hi (d : Int), Gen.fv_end_pos hi d = (hi : Int) + d) ∧
-    (∀ (p : Int) lo hi, Gen.fv_end_clamp p lo hi = max p (lo : Int)) ∧
-    (∀ cur (d : Int), Gen.fv_cur_pos cur d = (cur : Int) + d) ∧
-    (∀ (p : Int) lo hi, lo ≤ hi → (Gen.fv_cur_clamp p lo hi).toNat = clampI p lo hi) := by
-  refine ⟨?_, ?_, ?_, ?_, ?_, ?_, ?_, ?_⟩ <;> intros <;>
-    delta Gen.fv_read_len Gen.fv_start_target Gen.fv_rel Gen.fv_end_offset Gen.fv_end_pos Gen.fv_end_clamp Gen.fv_cur_pos
-      Gen.fv_cur_clamp <;>
-    first
-    | rfl
-    | (unfold clampI; omega)
-    | omega
-    | grind
-
-/-- **FileView.** Reading and seeking assembled from the source's expressions is the model's `stepView` (repaired variant), for
-    every file, window, position and operation — `fileview_refines_slice` (C18) is about `stepView`. -/
-theorem gen_fileview_step (file : List Nat) (v : View) (op : Op) (hw : v.lo ≤ v.hi) :
-    stepViewGen file v op = stepView true file v op := by
-  obtain ⟨h1, h2, h3, h4, h5, h6, h7, h8⟩ := gen_fv_atoms
-  cases op with
-  | read n => simp only [stepViewGen, stepView, h1]
-  | seek w =>
-    cases w with
-    | start k => simp only [stepViewGen, stepView, h2, h3]
-    | fromEnd d => simp only [stepViewGen, stepView, h3, h4, h5, h6, if_true]
-    | current d => simp only [stepViewGen, stepView, h3, h7, h8 _ _ _ hw]
-
-end FView
-
-namespace IX
-
-/-- the bisection of `index_chroms` with its arithmetic taken from the source: the stop test, the probe, the "no line starts to
-    the right of the probe" test and the upper bounds handed to the three recursive calls -/
-def doIndexGen (f : File) : Nat → St → Nat → Option Nat → Nat → Option St
-  | 0, _, _, _, _ => none
-  | limit + 1, st, prevId, nextId, hi =>
-    match find st prevId with
-    | none => none
-    | some prev =>
-      if Gen.ix_stop prev.off hi 0 0 then some st else
-      let nextEnt := nextId.bind (find st)
-      let m := Gen.ix_probe prev.off hi 0 0
-      let tell := lineEndAfter 0 f m
-      if Gen.ix_nothing_right prev.off hi m tell then
-        doIndexGen f limit st prevId nextId (Gen.ix_retry_limit prev.off hi m tell)
-      else
-        match chromAt 0 f tell with
-        | none => some st
-        | some chrom =>
-          let (st1, currId) := insertAfter st prevId tell chrom
-          let left : Bool := decide (chrom ≠ prev.chrom)
-          let right : Bool := match nextEnt with
-            | some n => decide (chrom ≠ n.chrom)
-            | none => true
-          let st2 := if left then doIndexGen f limit st1 prevId (some currId) (Gen.ix_left_limit prev.off hi m tell) else some st1
-          st2.bind fun s => if right then doIndexGen f limit s currId nextId (Gen.ix_right_limit prev.off hi m tell) else some s
-
-theorem gen_ix_atoms (p hi m t x y : Nat) :
-    Gen.ix_stop p hi x y = decide (hi ≤ p + 1) ∧ Gen.ix_probe p hi x y = p + (hi - p - 1) / 2 ∧
-    Gen.ix_nothing_right p hi m t = decide (t ≥ hi) ∧ Gen.ix_retry_limit p hi m t = m + 1 ∧
-    Gen.ix_left_limit p hi m t = t ∧ Gen.ix_right_limit p hi m t = hi := by
-  delta Gen.ix_stop Gen.ix_probe Gen.ix_nothing_right Gen.ix_retry_limit Gen.ix_left_limit Gen.ix_right_limit
-  refine ⟨?_, ?_, ?_, ?_, ?_, ?_⟩ <;> first | rfl | omega | grind | (rw [Bool.eq_iff_iff]; atoms_norm; omega)
-
-/-- **Chromosome bisection.** `do_index` with the source's arithmetic is the model's repaired bisection `doIndexFixed` — the
-    function `index_is_first_line_of_every_run` (C18) is about — for every file, depth budget, list state and bounds. -/
-theorem gen_index_bisection (f : File) : ∀ (fuel : Nat) (st : St) (prevId : Nat) (nextId : Option Nat) (hi : Nat),
-    doIndexGen f fuel st prevId nextId hi = doIndexFixed f fuel st prevId nextId hi := by
-  intro fuel
-  induction fuel with
-  | zero => intros; rfl
-  | succ n ih =>
-    intro st prevId nextId hi
-    unfold doIndexGen doIndexFixed
-    cases hp : find st prevId with
-    | none => rfl
-    | some prev =>
-      have a := fun m t => gen_ix_atoms prev.off hi m t 0 0
-      simp only [(a 0 0).1, (a 0 0).2.1, fun m t => (a m t).2.2.1, fun m t => (a m t).2.2.2.1, fun m t => (a m t).2.2.2.2.1,
-        fun m t => (a m t).2.2.2.2.2, ih, decide_eq_true_eq]
-      first | rfl | (split <;> first | rfl | (split <;> first | rfl | (split <;> rfl)))
-
-end IX
-
-namespace CH
-
-/-- the chunking loop with the source's arithmetic: after the cut at the next line end, the tuple update, the clamp to the file
-    size and the exit test -/
-def loopGen (ls : List Nat) (fileSize chunks chunkSize : Nat) : Nat → Nat → Nat → List (Nat × Nat)
-  | 0, _, _ => []
-  | fuel + 1, start, end_ =>
-    let lineEnd := lineEndAfter 0 ls end_
-    let start' := Gen.ch_next_start fileSize chunks chunkSize start lineEnd
-    let raw := Gen.ch_next_end_raw fileSize chunks chunkSize start lineEnd
-    let end' := Gen.ch_clamp_end fileSize chunks chunkSize start' raw
-    (start, lineEnd) :: (if Gen.ch_done fileSize chunks chunkSize start' end' then [] else loopGen ls fileSize chunks chunkSize fuel start' end')
-
-def splitGen (ls : List Nat) (chunks : Nat) : List (Nat × Nat) :=
-  let fileSize := size ls
-  let chunkSize := Gen.ch_size fileSize chunks 0 0 0
-  loopGen ls fileSize chunks chunkSize (fileSize + 1) 0 (Gen.ch_first_end fileSize chunks chunkSize 0 0)
-
-theorem gen_ch_atoms (fs n cs a b : Nat) :
-    Gen.ch_size fs n cs a b = fs / n ∧ Gen.ch_first_end fs n cs a b = cs ∧ Gen.ch_next_start fs n cs a b = b ∧
-    Gen.ch_next_end_raw fs n cs a b = max b (a + cs + cs) ∧ Gen.ch_clamp_end fs n cs a b = min b fs ∧
-    Gen.ch_done fs n cs a b = decide (a ≥ fs) := by
-  delta Gen.ch_size Gen.ch_first_end Gen.ch_next_start Gen.ch_next_end_raw Gen.ch_clamp_end Gen.ch_done
-  refine ⟨?_, ?_, ?_, ?_, ?_, ?_⟩ <;> first | rfl | omega | grind | (rw [Bool.eq_iff_iff]; atoms_norm; omega)
-
-/-- **Size-based chunking.** `split_file_into_chunks_by_size` with the source's arithmetic is the model's `split` — the function
-    `chunks_cover_exactly_once_at_line_starts` and `chunks_partition_lines` (C18, C17) are about. -/
-theorem gen_chunker (ls : List Nat) (chunks : Nat) : splitGen ls chunks = split ls chunks := by
-  have hl : ∀ (fs cs fuel a b : Nat), loopGen ls fs chunks cs fuel a b = loop ls fs cs fuel a b := by
-    intro fs cs fuel
-    induction fuel with
-    | zero => intros; rfl
-    | succ n ih =>
-      intro a b
-      have h := fun x y => gen_ch_atoms fs chunks cs x y
-      simp only [loopGen, loop, (h _ _).2.2.1, (h _ _).2.2.2.1, (h _ _).2.2.2.2.1, (h _ _).2.2.2.2.2, ih, decide_eq_true_eq]
-  unfold splitGen split
-  simp only [(gen_ch_atoms _ _ _ _ _).1, (gen_ch_atoms _ _ _ _ _).2.1, hl]
-
-end CH
-
-/-! ### Summary statistics: what one value / one coverage piece adds, and where the running extrema start -/
-
-namespace SF
-
-/-- `process_val` of the bigWig writers on one value, assembled from the source's update expressions. The running
-    minimum / maximum start from the constants the source names (`gen_extrema_start`: the largest / smallest finite `f64`,
-    which every value is below / above — the model's `none`). -/
-def stepGen (r : Run) (x : Val) : Run :=
-  let l : Int := (len x : Nat)
-  { items := r.items + 1, bases := r.bases + (Gen.ws_bases_add l x.v 0 0).toNat,
-    mn := match r.mn with | none => some x.v | some m => some (Gen.ws_min l x.v m 0),
-    mx := match r.mx with | none => some x.v | some m => some (Gen.ws_max l x.v 0 m),
-    sum := r.sum + Gen.ws_sum_add l x.v 0 0, sumsq := r.sumsq + Gen.ws_sumsq_add l x.v 0 0 }
-
-theorem gen_wig_summary_atoms (l v a b : Int) :
-    Gen.ws_bases_add l v a b = l ∧ Gen.ws_sum_add l v a b = l * v ∧ Gen.ws_sumsq_add l v a b = l * v * v ∧
-    Gen.ws_min l v a b = min a v ∧ Gen.ws_max l v a b = max b v := by
-  delta Gen.ws_bases_add Gen.ws_sum_add Gen.ws_sumsq_add Gen.ws_min Gen.ws_max
-  refine ⟨?_, ?_, ?_, ?_, ?_⟩ <;> first | rfl | omega | grind
-
-/-- **bigWig summary.** One step of the summary fold with the source's expressions is the model's `step` — the fold
-    `C06_wig_chromosome_summary` and `C06_wig_total_summary` are about. -/
-theorem gen_wig_summary_step (r : Run) (x : Val) : stepGen r x = step r x := by
-  have h := fun a b => gen_wig_summary_atoms ((len x : Nat) : Int) x.v a b
-  unfold stepGen step
-  simp only [(h _ _).1, (h _ _).2.1, (h _ _).2.2.1, (h _ _).2.2.2.1, (h _ _).2.2.2.2, Int.toNat_natCast]
-  cases r.mn <;> cases r.mx <;> rfl
-
-/-- the running extrema of both bigWig writers (single pass and two pass) and of the per-region statistics start from the
-    largest finite `f64` (minimum) and the smallest (maximum) -/
-theorem gen_extrema_start :
-    Gen.ws_min_init_full = .posMax ∧ Gen.ws_max_init_full = .negMax ∧ Gen.ws_min_init_nozoom = .posMax ∧
-    Gen.ws_max_init_nozoom = .negMax ∧ Gen.st_min_init = .posMax ∧ Gen.st_max_init = .negMax := by
-  delta Gen.ws_min_init_full Gen.ws_max_init_full Gen.ws_min_init_nozoom Gen.ws_max_init_nozoom Gen.st_min_init Gen.st_max_init
-  refine ⟨?_, ?_, ?_, ?_, ?_, ?_⟩ <;> first | rfl | decide
-
-end SF
-
-namespace BSUM
-open SW
-
-/-- the summary update of the bigBed writer for one flushed piece of positive length, as the source writes it: the first
-    piece seeds the summary, later ones are added -/
-def addSeg (st : Option Sm) (g : Seg) : Option Sm :=
-  let len := g.e - g.s
-  match st with
-  | none => some ⟨len, len * g.d, len * g.d * g.d, g.d, g.d⟩
-  | some t => some ⟨t.bases + len, t.sum + len * g.d, t.sumsq + len * g.d * g.d, min t.mn g.d, max t.mx g.d⟩
-
-/-- … the same, assembled from the expressions regenerated from the source -/
-def addSegGen (st : Option Sm) (g : Seg) : Option Sm :=
-  let l : Int := ((g.e - g.s : Nat) : Int)
-  let d : Int := (g.d : Nat)
-  match st with
-  | none => some ⟨(Gen.bs_first_bases l d 0 0).toNat, (Gen.bs_first_sum l d 0 0).toNat, (Gen.bs_first_sumsq l d 0 0).toNat,
-                  (Gen.bs_first_min l d 0 0).toNat, (Gen.bs_first_max l d 0 0).toNat⟩
-  | some t => some ⟨t.bases + (Gen.bs_bases_add l d 0 0).toNat, t.sum + (Gen.bs_sum_add l d 0 0).toNat,
-                    t.sumsq + (Gen.bs_sumsq_add l d 0 0).toNat, (Gen.bs_min l d t.mn 0).toNat, (Gen.bs_max l d 0 t.mx).toNat⟩
-
-theorem gen_bed_summary_atoms (l v a b : Int) :
-    Gen.bs_first_bases l v a b = l ∧ Gen.bs_first_sum l v a b = l * v ∧ Gen.bs_first_sumsq l v a b = l * v * v ∧
-    Gen.bs_first_min l v a b = v ∧ Gen.bs_first_max l v a b = v ∧
-    Gen.bs_bases_add l v a b = l ∧ Gen.bs_sum_add l v a b = l * v ∧ Gen.bs_sumsq_add l v a b = l * v * v ∧
-    Gen.bs_min l v a b = min a v ∧ Gen.bs_max l v a b = max b v := by
-  delta Gen.bs_first_bases Gen.bs_first_sum Gen.bs_first_sumsq Gen.bs_first_min Gen.bs_first_max Gen.bs_bases_add Gen.bs_sum_add
-    Gen.bs_sumsq_add Gen.bs_min Gen.bs_max
-  refine ⟨?_, ?_, ?_, ?_, ?_, ?_, ?_, ?_, ?_, ?_⟩ <;> first | rfl | omega | grind
-
-theorem toNat_mul2 (a b : Nat) : ((a : Int) * (b : Int)).toNat = a * b := by
-  rw [← Int.natCast_mul]; exact Int.toNat_natCast _
-theorem toNat_mul3 (a b : Nat) : ((a : Int) * (b : Int) * (b : Int)).toNat = a * b * b := by
-  rw [← Int.natCast_mul, ← Int.natCast_mul]; exact Int.toNat_natCast _
-theorem toNat_min (a b : Nat) : (min (a : Int) (b : Int)).toNat = min a b := by omega
-theorem toNat_max (a b : Nat) : (max (a : Int) (b : Int)).toNat = max a b := by omega
-
-/-- **bigBed summary update** with the source's expressions is `addSeg` -/
-theorem gen_bed_summary_step (st : Option Sm) (g : Seg) : addSegGen st g = addSeg st g := by
-  have h := fun a b => gen_bed_summary_atoms ((g.e - g.s : Nat) : Int) (g.d : Nat) a b
-  unfold addSegGen addSeg
-  cases st with
-  | none =>
-    simp only [(h _ _).1, (h _ _).2.1, (h _ _).2.2.1, (h _ _).2.2.2.1, (h _ _).2.2.2.2.1, Int.toNat_natCast, toNat_mul2, toNat_mul3]
-  | some t =>
-    simp only [(h _ _).2.2.2.2.2.1, (h _ _).2.2.2.2.2.2.1, (h _ _).2.2.2.2.2.2.2.1, (h _ _).2.2.2.2.2.2.2.2.1,
-      (h _ _).2.2.2.2.2.2.2.2.2, Int.toNat_natCast, toNat_mul2, toNat_mul3, toNat_min, toNat_max]
-
-theorem foldl_addSeg_some (l : List Seg) : ∀ (t : Sm), l.foldl addSeg (some t) =
-    some ⟨t.bases + (l.map fun g => g.e - g.s).sum, t.sum + (l.map fun g => (g.e - g.s) * g.d).sum,
-          t.sumsq + (l.map fun g => (g.e - g.s) * g.d * g.d).sum, (l.map (·.d)).foldl min t.mn, (l.map (·.d)).foldl max t.mx⟩ := by
-  induction l with
-  | nil => intro t; simp
-  | cons g rest ih =>
-    intro t
-    simp only [List.foldl_cons, addSeg, ih, List.map_cons, List.sum_cons]
-    congr 2 <;> omega
-
-/-- folding `addSeg` over the pieces of positive length a chromosome's sweep emits gives the chromosome summary `ofSegs` the
-    theorems of C06 are about (`C06_bed_bases_covered`, `…_sum`, `…_sum_squares`, `…_min_max`, the cross-chromosome merge) -/
-theorem foldl_addSeg_eq_ofSegs (l : List Seg) (hpos : ∀ g ∈ l, g.s < g.e) (hne : l ≠ []) :
-    l.foldl addSeg none = some (ofSegs l) := by
-  have hp : pos l = l := List.filter_eq_self.mpr (by intro g hg; simpa using hpos g hg)
-  cases l with
-  | nil => exact absurd rfl hne
-  | cons g rest =>
-    unfold ofSegs
-    rw [hp]
-    simp only [List.foldl_cons, addSeg, foldl_addSeg_some, List.map_cons, List.sum_cons, minD, maxD, Nat.zero_max]
-
-end BSUM
-
-namespace ST
-
-/-- the accumulation of `stats_for_bed_item` over one clipped value -/
-theorem gen_region_stats_atoms (n v a b : Int) :
-    Gen.st_bases_add n v a b = n ∧ Gen.st_sum_add n v a b = n * v ∧ Gen.st_min n v a b = min a v ∧ Gen.st_max n v a b = max b v := by
-  delta Gen.st_bases_add Gen.st_sum_add Gen.st_min Gen.st_max
-  refine ⟨?_, ?_, ?_, ?_⟩ <;> first | rfl | omega | grind
-
-end ST
-
-namespace ZL
-
-/-- **Automatic zoom levels (D24).** Both writers take `min max_zooms MAX_ZOOM_LEVELS` candidate resolutions (regenerated from the
-    two `.take(…)` of bbiwrite.rs), each candidate `factor = 4` times the previous one (checked multiplication: the list ends
-    before a resolution would overflow 32 bits). With `MAX_ZOOM_LEVELS` = the zoom directory's ten slots (`Gen.MAX_ZOOM_LEVELS`,
-    re-extracted): whatever `max_zooms` is, at most ten levels are listed, and the candidates are the strictly increasing
-    `autoSizes` of `C07_auto_candidates_strictly_increasing`. -/
-theorem gen_auto_zoom_count (maxZooms : Nat) :
-    Gen.zl_count_single maxZooms Gen.MAX_ZOOM_LEVELS = min maxZooms 10 ∧ Gen.zl_count_two maxZooms Gen.MAX_ZOOM_LEVELS = min maxZooms 10 ∧
-    Gen.zl_factor = 4 ∧ Gen.zl_count_single maxZooms Gen.MAX_ZOOM_LEVELS ≤ 10 ∧ Gen.zl_count_two maxZooms Gen.MAX_ZOOM_LEVELS ≤ 10 := by
-  delta Gen.zl_count_single Gen.zl_count_two Gen.zl_factor Gen.MAX_ZOOM_LEVELS
-  refine ⟨?_, ?_, ?_, ?_, ?_⟩ <;> first | rfl | omega | grind
-
-theorem autoSizes_length (initial : Nat) : ∀ n, (autoSizes initial n).length = n := by
-  intro n
-  induction n generalizing initial with
-  | zero => rfl
-  | succ n ih => simp [autoSizes, ih]
-
-end ZL
-
-namespace PYC
-
-/-- **The array routines of the Python bindings convert integers to `f64` only.** `Gen.pyb_conv_* x` lists, in source order, the value
-    of `x` after each `as f32` / `as f64` in `to_array`, `to_array_bins`, `to_entry_array`, `to_entry_array_bins` (regenerated from
-    pybigtools/src/lib.rs on every run). For a 32-bit coordinate, offset, bin index or count every one of them is `x` itself —
-    `FR.f64_exact_u32` — which is what entitles the model (`PyBase`, `PyBinsProof`, `PyBedBinsProof`) to compute bin borders and bin
-    membership from exact integers. A conversion through `f32` anywhere in these four functions fails this obligation; the search
-    program then exhibits `x = 2^24 + 1` (S120). -/
-theorem gen_py_conversions_exact (x : Nat) (h : x < 2 ^ 32) :
-    (Gen.pyb_conv_to_array x ++ Gen.pyb_conv_to_array_bins x ++ Gen.pyb_conv_to_entry_array x ++
-      Gen.pyb_conv_to_entry_array_bins x).all (· == x) = true := by
-  simp [Gen.pyb_conv_to_array, Gen.pyb_conv_to_array_bins, Gen.pyb_conv_to_entry_array, Gen.pyb_conv_to_entry_array_bins,
-    FR.f64_exact_u32 x h]
-
-end PYC
+import BigtoolsModel.AtomsTiler
+import BigtoolsModel.AtomsSweep
+import BigtoolsModel.AtomsCut
+import BigtoolsModel.AtomsStep
+import BigtoolsModel.AtomsFView
+import BigtoolsModel.AtomsIX
+import BigtoolsModel.AtomsCH
+import BigtoolsModel.AtomsSF
+import BigtoolsModel.AtomsBSUM
+import BigtoolsModel.AtomsST
+import BigtoolsModel.AtomsZL
+/-! Umbrella: the obligations on the expressions regenerated from the Rust source, one module per group (`Atoms*.lean`), so that a
+    property depends only on the groups its theorems use. -/
